@@ -122,10 +122,27 @@ fn winsor(rep: &mut Report, v: &Value) {
     let vo: Vec<Option<f64>> = enc_vec(&s);
     let mut one = |name: &str, method: WinsorizeMethod, param: f64, ptxt: String, exps: Vec<Exp>| {
         let key = format!("winsorize({name})|{ptxt}|{skey}");
-        for (cell, r) in [
+        let nullfree = !has_null(&s);
+        let nonneg = nullfree && all_of(s.iter(), |x| *x >= 0);
+        let mut cells: Vec<(&str, Result<TResult<Vec<f64>>, String>)> = vec![
             ("Vec<f64>", catch(|| vf.winsorize(method, Some(param)).map(|it| it.collect::<Vec<f64>>()))),
             ("Vec<Option<f64>>", catch(|| vo.winsorize(method, Some(param)).map(|it| it.collect::<Vec<f64>>()))),
-        ] {
+        ];
+        // integer element types, signed and UNSIGNED (a difference of two order statistics taken in
+        // an unsigned type underflows when the larger one comes second)
+        if nullfree {
+            let vi: Vec<i32> = enc_vec(&s);
+            cells.push(("Vec<i32>", catch(|| vi.winsorize(method, Some(param)).map(|it| it.collect::<Vec<f64>>()))));
+            let vl: Vec<i64> = enc_vec(&s);
+            cells.push(("Vec<i64>", catch(|| vl.winsorize(method, Some(param)).map(|it| it.collect::<Vec<f64>>()))));
+        }
+        if nonneg {
+            let vu: Vec<u64> = s.iter().map(|x| *x as u64).collect();
+            cells.push(("Vec<u64>", catch(|| vu.winsorize(method, Some(param)).map(|it| it.collect::<Vec<f64>>()))));
+            let vz: Vec<usize> = s.iter().map(|x| *x as usize).collect();
+            cells.push(("Vec<usize>", catch(|| vz.winsorize(method, Some(param)).map(|it| it.collect::<Vec<f64>>()))));
+        }
+        for (cell, r) in cells {
             rep.cells += 1;
             match r {
                 Err(p) => rep.mismatch("winsorize", &format!("winsorize({name})"), &key, cell, &format!("panicked: {p}"), v),
